@@ -50,6 +50,14 @@ func runSolver(ctx context.Context, sd solverDef, timeout time.Duration, file st
 	_ = cmd.Run()
 	secs := time.Since(start).Seconds()
 	text := out.String()
+	// skip solver warnings (e.g. about patterns) in front of the answer
+	for strings.HasPrefix(text, "WARNING") {
+		i := strings.Index(text, "\n")
+		if i < 0 {
+			break
+		}
+		text = text[i+1:]
+	}
 	first := strings.TrimSpace(strings.SplitN(text, "\n", 2)[0])
 	res := "unknown"
 	switch {
@@ -122,7 +130,7 @@ func discharge(vc *VC, o *Obligation, dir string, timeout time.Duration, seed in
 	} else {
 		launch(solvers[0], 0)
 		launch(solvers[1], 0)
-		launch(solvers[2], 700*time.Millisecond)
+		launch(solvers[2], 150*time.Millisecond)
 	}
 	n := 2
 	if !o.Vacuity {
@@ -231,7 +239,7 @@ func dischargeAll(units []*UnitResult, dir string, timeout time.Duration, seed i
 	}
 	var jobs []job
 	for _, u := range units {
-		if u.VC == nil || u.Err != "" {
+		if u.VC == nil {
 			continue
 		}
 		for _, o := range u.VC.obls {
@@ -246,6 +254,12 @@ func dischargeAll(units []*UnitResult, dir string, timeout time.Duration, seed i
 			defer wg.Done()
 			for j := range ch {
 				discharge(j.vc, j.o, dir, timeout, seed)
+				if !j.o.Vacuity && (j.o.Result == "unknown" || j.o.Result == "timeout") {
+					// one retry with a longer limit before an obligation is reported as undischarged
+					first := j.o.Seconds
+					discharge(j.vc, j.o, dir, 3*timeout, seed+1)
+					j.o.Seconds += first
+				}
 			}
 		}()
 	}
